@@ -464,7 +464,7 @@ def run(rep, ctx):
     rep.rule("R08.7", "the sets whose parameters are solved are assembled per orbit with the letter of the chosen normalizer (shared with C06/C07)")
     with rep.guard("R08.7"):
         from . import shared as _sh
-        _sh.normal_form(rep, ctx.model, "R08.7")
+        _sh.normal_form(rep, ctx.model, "R08.7", ranking=False)
     rep.rule("R08.8", "positions are matched against the tabulated expressions in the setting the expressions are written in (standard setting)")
     with rep.guard("R08.8"):
         r08_8(rep, M, "R08.8")
@@ -481,8 +481,8 @@ def run(rep, ctx):
     rep.rule("R08.11", "spglib is given the analysed structure unmodified with the analyzer's tolerance, and its standardised lattice / positions / types are used without a change of convention (shared with C05)")
     with rep.guard("R08.11"):
         from . import shared as _shb
-        _shb.spglib_boundary(rep, ctx.model, "R08.11")
-    rep.floor("R08.11", 7)
+        _shb.spglib_boundary(rep, ctx.model, "R08.11", back=False)
+    rep.floor("R08.11", 4)
     rep.rule("R08.12", "every tabulated normalizer is an automorphism of its group and an isometry of the lattice (the normalised cell is the same crystal in the same space group; shared with C05/C14)")
     from . import shared as _shn
     _shn.normalizer_tables(rep, ctx.tables, "R08.12", perm=True)
